@@ -148,6 +148,11 @@ fn check_iter_only<H: AsRef<[usize]>>(c: &mut Case, ef: &EliasFano<H>, xs: &[usi
     c.check("len", ef.len() == xs.len(), || format!("len() = {}, model {}; {}", ef.len(), xs.len(), d()));
     check_full_iter!(c, ef.iter(), "iter", xs, d);
     check_full_iter!(c, ef.into_iter(), "into_iter", xs, d);
+    // the iterator through the skipping adaptors and ExactSizeIterator::len
+    if xs.len() <= 2000 && c.rng().random_range(0..4u32) == 0 {
+        c.iter_protocol("iter_adaptors", || ef.iter(), xs, d);
+        c.iter_exact_len("iter_exact_len", || ef.iter(), xs.len(), d);
+    }
 }
 
 fn check_seq<H: AsRef<[usize]> + SelectUnchecked>(c: &mut Case, ef: &EliasFano<H>, xs: &[usize], lim: Lim, d: &dyn Fn() -> String) {
@@ -208,6 +213,16 @@ fn check_seq<H: AsRef<[usize]> + SelectUnchecked>(c: &mut Case, ef: &EliasFano<H
     // whole-sequence iteration
     check_full_iter!(c, ef.iter(), "iter", xs, d);
     check_full_iter!(c, ef.into_iter(), "into_iter", xs, d);
+    // the iterators through the skipping adaptors (nth, skip, step_by, ...)
+    if n <= 2000 && c.rng().random_range(0..6u32) == 0 {
+        c.iter_protocol("iter_adaptors", || ef.iter(), xs, d);
+        if n > 0 {
+            let k = c.rng().random_range(0..n);
+            let tr = || format!("iter_from({}); {}", k, d());
+            c.iter_protocol("iter_from_adaptors", || ef.iter_from(k), &xs[k..], &tr);
+            c.iter_protocol("iter_from_adaptors", || ef.into_iter_from(k), &xs[k..], &tr);
+        }
+    }
     // iteration from every start position < n
     let starts = positions(c, n, lim.full_from, lim.from_samples);
     let full = n <= lim.full_from;
